@@ -106,6 +106,13 @@ func c14Configs() []*hConfig {
 		cfg.Name = fmt.Sprintf("key=%s nested-objects", cfg.Key)
 		out = append(out, cfg)
 	}
+	// objects of several values whose seek index has several entries (small stride, default
+	// threshold): configs 14 and 15
+	for _, ord := range []string{"asc", "desc"} {
+		cfg := &hConfig{Key: "k:" + ord, Stride: 4, Batches: append([]string{`{k:1,v:"a"} {k:2,v:"b"} {k:4,v:"c"} {k:7,v:"d"} {k:8,v:"e"} {k:9,v:"f"}`}, nested[1:]...), Preds: []string{"k<=3", "k>=5", `v=="a"`}, Ops: c14DataOps(mainOnly)}
+		cfg.Name = fmt.Sprintf("key=%s thresh=0 stride=4", cfg.Key)
+		out = append(out, cfg)
+	}
 	return out
 }
 
@@ -123,7 +130,7 @@ func TestC14(t *testing.T) {
 	var sel []int
 	for i := range cfgs {
 		// quick: key k and this with small objects, a.b with default
-		if rep.Thorough() || i == 0 || i == 3 || i == 5 || i == 8 || i == 10 || i == 12 || i == 13 {
+		if rep.Thorough() || i == 0 || i == 3 || i == 5 || i == 8 || i == 10 || i == 12 || i == 13 || i == 14 || i == 15 {
 			sel = append(sel, i)
 		}
 	}
